@@ -2,6 +2,7 @@ package frame
 
 import (
 	"crypto/sha256"
+	"io"
 
 	"github.com/bluenviron/gomavlib/v3/pkg/message"
 )
@@ -108,6 +109,9 @@ func verifHarness_C06_gate(kind int, n int) {
 			verifAssert(verifEqBytes(g.Signature[:], sigb), "C06/b/delivered-signature-bytes")
 		}
 	}
+	// delivered or refused, the frame is consumed whole: nothing of it is left to be rescanned as input
+	_, err2 := rd.Read()
+	verifAssert(err2 == io.EOF, "C06/b/frame-consumed-whole")
 	verifReach("C06/b")
 }
 
